@@ -197,54 +197,7 @@ def check(prog, run):
                         run.report(r, "%s:%s.%s:read-modify-write(%s)" % (TP, fname, n, name), cb.where(x),
                                    "`%s` is a separate read and write of shared callback state (lost update under concurrent completion)" % norm_stmt(x))
 
-    # ---- R6 asyncio gather_values bookkeeping
-    r = run.rule("R6", "AsyncIORuntime.gather_values: the awaitable list and its index list are appended together, every value "
-                       "gets a result slot, and results are patched through zip(index list, gathered)", 3)
-    gv = prog.get_func(AIO, "AsyncIORuntime.gather_values")
-    run.looked_at(gv)
-    from ..canon import Canon
-    vcn = Canon(gv.node)
-    loop = [n for n in gv.node.body if isinstance(n, ast.For)]
-    shapes.require(len(loop) == 1, "C08.R6: gather_values loop not found")
-    # roles by data flow: the nested coroutine patches RESULT[i] = v for (i, v) in zip(INDEX, await gather(*AWAITABLES))
-    aws = [f for f in gv.nested.values() if any(isinstance(x, ast.Await) for x in ast.walk(f.node))]
-    shapes.require(len(aws) == 1, "C08.R6: the awaiting coroutine of gather_values not found")
-    aw = aws[0]
-    roles = None
-    for n in own_nodes(aw.node):
-        if isinstance(n, ast.For) and isinstance(n.iter, ast.Call) and ast.unparse(n.iter.func) == "zip" and len(n.iter.args) == 2 \
-                and isinstance(n.target, ast.Tuple) and len(n.target.elts) == 2:
-            a0, a1 = n.iter.args
-            stars = [x.value for x in ast.walk(a1) if isinstance(x, ast.Starred)]
-            gathered = any(isinstance(x, ast.Call) and ast.unparse(x.func).endswith("gather") for x in ast.walk(a1)) and \
-                any(isinstance(x, ast.Await) for x in ast.walk(a1))
-            i, v = [ast.unparse(e) for e in n.target.elts]
-            for s2 in n.body:
-                if isinstance(s2, ast.Assign) and isinstance(s2.targets[0], ast.Subscript) and ast.unparse(s2.targets[0].slice) == i \
-                        and ast.unparse(s2.value) == v and isinstance(a0, ast.Name) and len(stars) == 1 and isinstance(stars[0], ast.Name) and gathered:
-                    roles = {"index": a0.id, "awaitables": stars[0].id, "result": ast.unparse(s2.targets[0].value)}
-    r.instance("gather_values roles %s" % roles)
-    if roles is None:
-        run.report(r, "%s:AsyncIORuntime.gather_values:patch" % AIO, aw.where(), "awaited results are not written back through zip(index list, await gather(*awaitables))")
-    else:
-        by_list = {v: k for k, v in roles.items()}
-        idx_var = loop[0].target.elts[0].id if isinstance(loop[0].target, ast.Tuple) and isinstance(loop[0].target.elts[0], ast.Name) else None
-
-        def gev(x):
-            if isinstance(x, ast.Call):
-                ft = vcn.func_text(x)
-                if ft.endswith(".append") and ft[:-len(".append")] in by_list:
-                    arg = x.args[0] if x.args else None
-                    is_index = isinstance(arg, ast.Name) and arg.id == idx_var
-                    return "%s(%s)" % (by_list[ft[:-len(".append")]], "index" if is_index else "value")
-            return None
-        normal, _ = event_paths(None, gev, body=loop[0].body, may_raise=lambda n: None)
-        for seq in sorted(normal):
-            r.instance("gather_values iteration %s" % list(seq))
-            s_ = sorted(seq)
-            if s_ not in (["result(value)"], ["awaitables(value)", "index(index)", "result(value)"]):
-                run.report(r, "%s:AsyncIORuntime.gather_values:iteration(%s)" % (AIO, ">".join(seq)), gv.where(loop[0]),
-                           "an iteration performs %s: awaitables, their indices and the result slots get out of step" % list(seq))
+    check_gather_bookkeeping(prog, run, "R6")
 
     # ---- R7 broad handlers transfer or re-raise
     r = run.rule("R7", "every `except Exception/BaseException` in execution/runtime/** re-raises, transfers the exception object "
@@ -363,6 +316,8 @@ def check(prog, run):
     c09.check_guarded_flatten(prog, run, "R13")
     check_non_null_after_completion(prog, run, "R14")
     check_resolver_invocation(prog, run, "R15")
+    check_no_blocking_wait(prog, run, "R16")
+    check_completion_failure(prog, run, "R17")
     from .. import sentinel
     sentinel.check(prog, run, "R10", ["py_gql.execution"], 6,
                    "an unexpected IndexError/KeyError from a resolver would be lost under one executor/runtime and surface under the others")
@@ -739,3 +694,173 @@ def check_resolver_invocation(prog, run, rule_id):
         r.instance("%s.resolve_field: %d plain executions call the resolver with **argument_values" % (cname, n_ok))
         if not n_ok and not n_bad:
             raise AnalysisError("C08.%s: no plain execution of %s.resolve_field found" % (rule_id, cname))
+
+
+
+def check_gather_bookkeeping(prog, run, rule_id="R6"):
+    # ---- R6 asyncio gather_values bookkeeping
+    r = run.rule(rule_id, "AsyncIORuntime.gather_values: the awaitable list and its index list are appended together, every value "
+                       "gets a result slot, and results are patched through zip(index list, gathered)", 3)
+    gv = prog.get_func(AIO, "AsyncIORuntime.gather_values")
+    run.looked_at(gv)
+    from ..canon import Canon
+    vcn = Canon(gv.node)
+    loop = [n for n in gv.node.body if isinstance(n, ast.For)]
+    shapes.require(len(loop) == 1, "C08.R6: gather_values loop not found")
+    # roles by data flow: the nested coroutine patches RESULT[i] = v for (i, v) in zip(INDEX, await gather(*AWAITABLES))
+    aws = [f for f in gv.nested.values() if any(isinstance(x, ast.Await) for x in ast.walk(f.node))]
+    shapes.require(len(aws) == 1, "C08.R6: the awaiting coroutine of gather_values not found")
+    aw = aws[0]
+    roles = None
+    for n in own_nodes(aw.node):
+        if isinstance(n, ast.For) and isinstance(n.iter, ast.Call) and ast.unparse(n.iter.func) == "zip" and len(n.iter.args) == 2 \
+                and isinstance(n.target, ast.Tuple) and len(n.target.elts) == 2:
+            a0, a1 = n.iter.args
+            stars = [x.value for x in ast.walk(a1) if isinstance(x, ast.Starred)]
+            gathered = any(isinstance(x, ast.Call) and ast.unparse(x.func).endswith("gather") for x in ast.walk(a1)) and \
+                any(isinstance(x, ast.Await) for x in ast.walk(a1))
+            i, v = [ast.unparse(e) for e in n.target.elts]
+            for s2 in n.body:
+                if isinstance(s2, ast.Assign) and isinstance(s2.targets[0], ast.Subscript) and ast.unparse(s2.targets[0].slice) == i \
+                        and ast.unparse(s2.value) == v and isinstance(a0, ast.Name) and len(stars) == 1 and isinstance(stars[0], ast.Name) and gathered:
+                    roles = {"index": a0.id, "awaitables": stars[0].id, "result": ast.unparse(s2.targets[0].value)}
+    r.instance("gather_values roles %s" % roles)
+    if roles is None:
+        run.report(r, "%s:AsyncIORuntime.gather_values:patch" % AIO, aw.where(), "awaited results are not written back through zip(index list, await gather(*awaitables))")
+    else:
+        by_list = {v: k for k, v in roles.items()}
+        idx_var = loop[0].target.elts[0].id if isinstance(loop[0].target, ast.Tuple) and isinstance(loop[0].target.elts[0], ast.Name) else None
+
+        def gev(x):
+            if isinstance(x, ast.Call):
+                ft = vcn.func_text(x)
+                if ft.endswith(".append") and ft[:-len(".append")] in by_list:
+                    arg = x.args[0] if x.args else None
+                    is_index = isinstance(arg, ast.Name) and arg.id == idx_var
+                    return "%s(%s)" % (by_list[ft[:-len(".append")]], "index" if is_index else "value")
+            return None
+        normal, _ = event_paths(None, gev, body=loop[0].body, may_raise=lambda n: None)
+        for seq in sorted(normal):
+            r.instance("gather_values iteration %s" % list(seq))
+            s_ = sorted(seq)
+            if s_ not in (["result(value)"], ["awaitables(value)", "index(index)", "result(value)"]):
+                run.report(r, "%s:AsyncIORuntime.gather_values:iteration(%s)" % (AIO, ">".join(seq)), gv.where(loop[0]),
+                           "an iteration performs %s: awaitables, their indices and the result slots get out of step" % list(seq))
+
+
+def check_no_blocking_wait(prog, run, rule_id):
+    """The thread-pool runtime never parks a thread on a future."""
+    r = run.rule(rule_id, "execution/runtime/threadpool.py: every `.result()` / `.exception()` read of a future happens inside a done-callback "
+                          "(a function handed to add_done_callback, or a helper called only from such functions), where the future has "
+                          "settled: no pool thread (and not the caller) ever blocks waiting for another task, so a resolver that returns "
+                          "a future of the same pool cannot starve it - execution completes once all resolvers have completed, whatever "
+                          "the pool size", 4)
+    mod = prog.module(TP)
+    fns = [f for f in prog.all_funcs() if f.module is mod]
+    by_node = {}
+    for f in fns:
+        by_node[id(f.node)] = f
+    # functions registered as done-callbacks (by name, at any nesting level)
+    registered = set()
+    for f in fns:
+        for n in own_nodes(f.node):
+            if isinstance(n, ast.Call) and isinstance(n.func, ast.Attribute) and n.func.attr == "add_done_callback" and n.args:
+                a = n.args[0]
+                if isinstance(a, ast.Name):
+                    registered.add(a.id)
+                elif isinstance(a, ast.Lambda):
+                    registered.add(id(a))
+    if not registered:
+        raise AnalysisError("C08.%s: no done-callback registration found in the thread-pool runtime" % rule_id)
+    # callers of each function name inside the module
+    callers = {}
+    for f in fns:
+        for n in own_nodes(f.node):
+            if isinstance(n, ast.Call) and isinstance(n.func, ast.Name):
+                callers.setdefault(n.func.id, set()).add(f.name)
+    ctx = {f.name for f in fns if f.name in registered}
+    changed = True
+    while changed:
+        changed = False
+        for f in fns:
+            if f.name not in ctx and callers.get(f.name) and callers[f.name] <= ctx:
+                ctx.add(f.name)
+                changed = True
+
+    def enclosing_names(f):
+        out, cur = [], f
+        while cur is not None:
+            out.append(cur.name)
+            cur = getattr(cur, "parent", None)
+        return out
+    for f in fns:
+        for n in own_nodes(f.node):
+            if isinstance(n, ast.Call) and isinstance(n.func, ast.Attribute) and n.func.attr in ("result", "exception") and not n.args and not n.keywords:
+                inside = any(nm in ctx for nm in enclosing_names(f))
+                # a lambda registered directly
+                cur = getattr(n, "_parent", None)
+                while cur is not None and not inside:
+                    if isinstance(cur, ast.Lambda) and id(cur) in registered:
+                        inside = True
+                    cur = getattr(cur, "_parent", None)
+                r.instance("%s: `%s` %s" % (f.qualname, norm_stmt(n, 50), "in a done-callback" if inside else "NOT in a done-callback"))
+                if not inside:
+                    run.report(r, "%s:%s:blocking-wait(%s)" % (TP, f.qualname, norm_stmt(n, 50)), f.where(n),
+                               "`%s` in %s waits for a future outside any done-callback: a pool thread (or the caller) blocks until another "
+                               "task has run; with a saturated pool the task it waits for never starts and the execution never completes"
+                               % (norm_stmt(n, 50), f.qualname))
+
+
+def check_completion_failure(prog, run, rule_id):
+    """Both executors treat a ResolverError raised while a field's value is completed the same way."""
+    from .. import usercalls
+    r = run.rule(rule_id, "Executor.resolve_field and BlockingExecutor.resolve_field: completion runs user code (a type resolver, a custom "
+                          "scalar's serializer - vf/usercalls.py) that may raise the library's ResolverError; every call of complete_value "
+                          "in either implementation is covered by a handler of that class (an enclosing try, or the else_ of the map_value "
+                          "whose `then` makes the call) or in neither - otherwise the same request is a field error under one executor and "
+                          "an exception out of the entry point under the other", 2)
+    sl = usercalls.slots(prog)
+    if "resolve_type" not in sl:
+        raise AnalysisError("C08.%s: the user-callable slots of schema/types.py were not found (%s)" % (rule_id, sorted(sl)))
+    from ..excflow import ExcUniverse
+    u = ExcUniverse(prog)
+    verdict = {}
+    for mod, q in (("py_gql.execution.executor", "Executor.resolve_field"), ("py_gql.execution.blocking_executor", "BlockingExecutor.resolve_field")):
+        f = prog.get_func(mod, q)
+        run.looked_at(f)
+        then_handled = set()
+        for n in own_nodes(f.node):
+            if isinstance(n, ast.Call) and isinstance(n.func, ast.Attribute) and n.func.attr == "map_value" and len(n.args) >= 2 and isinstance(n.args[1], ast.Name):
+                for k in n.keywords:
+                    if k.arg == "else_" and isinstance(k.value, ast.Tuple) and k.value.elts:
+                        cls = ast.unparse(k.value.elts[0]).split(".")[-1]
+                        if u.is_subclass("ResolverError", cls):
+                            then_handled.add(n.args[1].id)
+        sites = []
+        for g in [f] + list(f.nested.values()):
+            for n in own_nodes(g.node):
+                if isinstance(n, ast.Call) and isinstance(n.func, ast.Attribute) and n.func.attr == "complete_value":
+                    handled = g is not f and g.name in then_handled
+                    cur, child = getattr(n, "_parent", None), n
+                    while cur is not None and cur is not g.node and not handled:
+                        if isinstance(cur, ast.Try) and any(child is st or any(child is x for x in ast.walk(st)) for st in cur.body):
+                            for h in cur.handlers:
+                                names = [ast.unparse(t).split(".")[-1] for t in (h.type.elts if isinstance(h.type, ast.Tuple) else [h.type])] if h.type is not None else ["BaseException"]
+                                if any(u.is_subclass("ResolverError", x) for x in names):
+                                    handled = True
+                        child, cur = cur, getattr(cur, "_parent", None)
+                    sites.append((g, n, handled))
+        if not sites:
+            raise AnalysisError("C08.%s: %s does not call complete_value" % (rule_id, q))
+        verdict[q] = sites
+        r.instance("%s: complete_value called at %d site(s), ResolverError handled: %s" % (q, len(sites), [h for _g, _n, h in sites]))
+    alls = {q: all(h for _g, _n, h in s) for q, s in verdict.items()}
+    anys = {q: any(h for _g, _n, h in s) for q, s in verdict.items()}
+    if len(set(alls.values())) > 1 or alls != anys:
+        for q, s in verdict.items():
+            for g, n, h in s:
+                if not h:
+                    run.report(r, "%s:%s:completion-failure-unhandled" % (g.module.name, q), g.where(n),
+                               "%s completes the value outside any ResolverError handler while the other executor handles that class: a "
+                               "ResolverError raised by a type resolver or a scalar serializer escapes the entry point under this executor "
+                               "and is a field error under the other" % q)
